@@ -226,6 +226,14 @@ def register(chk):
                                 ob_adjust_nondelegable, l, pattern, fs, ts, True, fo, to_)
 
 
+def include_in(chk):
+    """this check's obligations registered inside another check (framework.Check.include): every call runs on objects of exactly the documented size,
+    so they are memory-safety obligations for valid calls as well"""
+    wkd.prog()
+    chk.replayer = replay_adjust
+    register(chk)
+
+
 def main(argv=None):
     chk = Check("C14", "proof", argv)
     chk.replayer = replay_adjust
